@@ -7,7 +7,7 @@ ENGINE = "group"
 PROPS = {"C03": "model_checking", "C15": "model_checking"}
 
 PROP_INVS = {
-    "C03": ["C03_CommitNotAhead", "C03_SyncAckRecorded", "C03_StartAtCommit", "C03_NoGapInStream", "C03_OnlyAssigned", "C03_StoredOnly",
+    "C03": ["C03_CommitNotAhead", "C03_SyncAckRecorded", "C03_StartAtCommit", "C03_NoGapInStream", "C03_OnlyAssigned", "C03_StoredOnly", "C03_DeliveredReachesApp",
             "C03_DeliveredBeforeCovered", "C03_AtLeastOnce"],
     "C15": ["C15_NextWaits", "C15_CloseWaits", "C15_EndCauses", "C15_EndsOnCause", "C15_NoHeartbeatAfterEnd", "C15_HeartbeatInterval", "C15_LeaveOnClose",
             "C15_BackoffAfterFailedJoin"],
@@ -164,8 +164,33 @@ def directed():
     out.append(dict(base, id="D-late-next", steps=[
         {"op": "hold", "gate": "app:beforenext:1"}, {"op": "start", "m": 1, "fns": 1}, {"op": "sleep", "ms": 3300},
         {"op": "release", "gate": "app:beforenext:1"}, {"op": "sleep", "ms": 300}, {"op": "stop", "m": 1}]))
+    # Close while the handshake has completed but nobody has called Next: the generation that was waiting to be handed out ends with
+    # the group (its heartbeats stop before LeaveGroup), whatever the application did or did not do
+    for ms in (150, 600):
+        out.append(dict(base, id="D-close-before-next-%d" % ms, steps=[
+            {"op": "hold", "gate": "app:beforenext:1"}, {"op": "start", "m": 1, "fns": 1}, {"op": "sleep", "ms": ms},
+            {"op": "stop", "m": 1}, {"op": "sleep", "ms": 700}, {"op": "release", "gate": "app:beforenext:1"}]))
+    # a watched topic of which the member holds no partition (it has none yet): its partition count changes
+    for watch in (True, False):
+        out.append(dict(base, id="D-watch-unassigned-topic-%s" % ("on" if watch else "off"), topics={"t": 1, "u": 0}, watch=watch, steps=[
+            {"op": "start", "m": 1, "fns": 2}, {"op": "sleep", "ms": 400}, {"op": "hold", "gate": "coord:m1/join"}, {"op": "addpartition", "t": "u"},
+            {"op": "sleep", "ms": 1800}, {"op": "stopasync", "m": 1}, {"op": "sleep", "ms": 50}, {"op": "release", "gate": "coord:m1/join"}]))
     rb = {"mode": "reader", "topics": {"t": 2}, "records": 6, "startOffset": -2, "commitIntervalMs": 0, "heartbeatMs": 20, "backoffMs": 60,
           "watch": False, "drain": True}
+    # the fetch connection of a partition is lost / the leader moves in the middle of a generation: the fetcher goes on where it was.
+    # With StartOffset = LastOffset "last" was resolved when the partition was assigned: records appended since then are delivered
+    for code in (-1, 6):
+        out.append(dict(rb, id="D-fetch-fault-last-%d" % code, topics={"t": 1}, records=3, startOffset=-1, drain=False, steps=[
+            {"op": "start", "m": 1}, {"op": "sleep", "ms": 400}, {"op": "fetchfault", "t": "t", "p": 0, "code": code}, {"op": "append", "t": "t", "p": 0, "n": 3},
+            {"op": "sleep", "ms": 500}, {"op": "append", "t": "t", "p": 0, "n": 1}, {"op": "fetch", "m": 1, "n": 4, "commit": "sync", "wait": True}]))
+        out.append(dict(rb, id="D-fetch-fault-first-%d" % code, topics={"t": 1}, records=6, steps=[
+            {"op": "start", "m": 1}, {"op": "fetch", "m": 1, "n": 3, "commit": "sync", "wait": True}, {"op": "fetchfault", "t": "t", "p": 0, "code": code},
+            {"op": "append", "t": "t", "p": 0, "n": 2}, {"op": "fetch", "m": 1, "n": 60, "commit": "sync", "wait": True}]))
+    # an application that polls with contexts that are already done: such a call returns the context's error or a message, and a
+    # message the Reader took from its queue is returned, not dropped
+    for k in (2, 3):
+        out.append(dict(rb, id="D-cancelled-fetch-calls-%d" % k, topics={"t": 1}, records=40, qcap=20, steps=[
+            {"op": "start", "m": 1}, {"op": "sleep", "ms": 300}, {"op": "fetch", "m": 1, "n": 80, "commit": "sync", "wait": True, "cancelEvery": k, "paceUs": 300}]))
     # two members, rebalance in the middle of consumption, sync commits
     out.append(dict(rb, id="D-two-members-sync", steps=[
         {"op": "start", "m": 1}, {"op": "fetch", "m": 1, "n": 5, "commit": "sync", "wait": True}, {"op": "start", "m": 2},
